@@ -75,11 +75,12 @@ for k, v in variants.items():
     tier = "quick" if k in LIVEQUICK else "thorough"
     write("Lifecycle.%s.live.%s.cfg" % (k, tier), v, "live")
 # small data-phase instances for the quick liveness run
-write("Lifecycle.data-rk-s.live.quick.cfg", dict(D, Rd=["r1"], Cl=["k1"], PeerScript="PS_cn"), "live")
+write("Lifecycle.data-rk-s.live.thorough.cfg", dict(D, Rd=["r1"], Cl=["k1"], PeerScript="PS_cn"), "live")
 write("Lifecycle.data-wk-s.live.thorough.cfg", dict(D, Wr=["w1"], Cl=["k1"], PeerScript="PS_none"), "live")
 write("Lifecycle.data-wk13-s.live.quick.cfg", dict(D, **V13, Wr=["w1"], Cl=["k1"], PeerScript="PS_none"), "live")
 write("Lifecycle.data-kk-s.live.thorough.cfg", dict(D, Cl=["k1", "k2"], PeerScript="PS_none"), "live")
 write("Lifecycle.data-fatal-s.live.quick.cfg", dict(D, Rd=["r1"], PeerScript="PS_fatal"), "live")
+write("Lifecycle.data-cn-s.live.quick.cfg", dict(D, Rd=["r1"], PeerScript="PS_cn"), "live")
 write("Lifecycle.data-block-s.live.thorough.cfg", dict(D, Wr=["w1"], Cl=["k1"], TransportBlocks=True), "live")
 # generation
 gens = {
